@@ -6,6 +6,8 @@ from collections import Counter
 
 from .. import gen
 from ..tools import run_sync_side, run_async_side, first_diff, strip_close, drop_stdlib_repolls
+from ..loop import CTX, drive
+from ..probes import Item, canon
 
 ID = "C05"
 LEVEL = "exploration"
@@ -38,6 +40,16 @@ def cases(tier, seed, shard, nshards):
             if gb["flav"] == "list":
                 gb = dict(gb, flav="async_class")
             yield {"kind": "groupby", "gb": gb}
+    k = 0
+    for name in MUT_TOOLS:
+        if MUT_TOOLS[name][0] is None:
+            continue
+        for n in (0, 1, 3, 4):
+            for at in range(0, n + 2):
+                for mutation in MUTATIONS:
+                    k += 1
+                    if k % nshards == shard:
+                        yield {"kind": "mutating", "tool": name, "n": n, "at": at, "mutation": mutation}
     idx = 0
     for spec in gen.enum_iter_specs(small=(tier == "quick")):
         idx += 1
@@ -79,6 +91,86 @@ def cases(tier, seed, shard, nshards):
         yield {"spec": spec, "flav": flav, "fnfl": rng.choice(FNFL)}
 
 
+MUT_TOOLS = {
+    # name -> (fns, params): tools that read ONE list lazily, one position per step
+    "enumerate": ([], {}), "islice": ([], {"args": [1, None, 2]}), "batched": ([], {"n": 2}), "pairwise": ([], {}),
+    "chain": ([], {}), "zip": ([], {}), "zip_longest": ([], {}), "accumulate": ([None], {"initial": ["item", 0, "init"]}), "filter": ([None], {}),
+    "filterfalse": ([None], {}), "map": (["mk"], {}), "takewhile": (["true"], {}), "dropwhile": (["false"], {}),
+    "starmap": (None, None), "compress": (None, None),
+}
+MUTATIONS = ["append", "append2", "pop", "replace_next", "insert_front", "clear"]
+
+
+def run_mutating(case, stats):
+    """A plain list is the source and is modified while the tool is part-way through it (by the consumer between
+    two steps): like its counterpart the tool reads the list one position per step, so it sees the change."""
+    from ..probes import make_fn, FnState
+    from ..tools import TOOLS, IMPLS, _params
+    name, at, mutation, n = case["tool"], case["at"], case["mutation"], case["n"]
+    fns, params = MUT_TOOLS[name]
+    spec = {"tool": name, "srcs": [list(range(n))], "fns": fns, "params": params}
+    tool = TOOLS[name]
+    outs = {}
+    for which in ("sync", "async"):
+        CTX.reset()
+        data = [Item(k % 3, (0, k), truth=k % 3 != 0) for k in range(n)]
+        fresh = iter([Item(7, ("new", j)) for j in range(4)])
+        P = _params(spec)
+        F = [make_fn(FnState(f"f{i}", IMPLS[f]), "def") if f is not None else None for i, f in enumerate(fns)]
+        out = outs[which] = []
+
+        def mutate():
+            if mutation == "append":
+                data.append(next(fresh))
+            elif mutation == "append2":
+                data.extend([next(fresh), next(fresh)])
+            elif mutation == "pop" and data:
+                data.pop()
+            elif mutation == "replace_next" and len(data) > len(out):
+                data[-1] = next(fresh)
+            elif mutation == "insert_front":
+                data.insert(0, next(fresh))
+            elif mutation == "clear":
+                data.clear()
+
+        if which == "sync":
+            it = tool.sync([data], F, P)
+            try:
+                for step in range(n + 6):
+                    if step == at:
+                        mutate()
+                    out.append(canon(next(it)))
+            except StopIteration:
+                out.append("STOP")
+            except Exception as exc:  # noqa: BLE001
+                out.append(("raise", type(exc).__name__))
+        else:
+            async def main():
+                it = tool.make([data], F, P)
+                try:
+                    for step in range(n + 6):
+                        if step == at:
+                            mutate()
+                        out.append(canon(await it.__anext__()))
+                except StopAsyncIteration:
+                    out.append("STOP")
+                except Exception as exc:  # noqa: BLE001
+                    out.append(("raise", type(exc).__name__))
+                await it.aclose()
+
+            drive(main())
+    stats["mutating_source_runs"] += 1
+    viols = []
+    if outs["sync"] != outs["async"]:
+        d = next((i for i, (a, b) in enumerate(zip(outs["sync"], outs["async"])) if a != b), min(len(outs["sync"]), len(outs["async"])))
+        viols.append({"key": f"{name}/list-changed-while-iterating",
+                      "msg": f"{name} over a list of {n} items, list changed ({mutation}) before step {at}: stdlib gives "
+                             f"{outs['sync'][d:d + 3]} from output {d}, asyncstdlib {outs['async'][d:d + 3]}"})
+    if CTX.foreign:
+        viols.append({"key": f"{name}/foreign-suspension", "msg": CTX.foreign[0]})
+    return {"violations": viols, "nontrivial": True, "sig": ("mutating", name, at, mutation, n)}
+
+
 def classify(spec, exp, got, d):
     tool = spec["tool"]
     ev = got[d] if d < len(got) else None
@@ -98,6 +190,8 @@ def classify(spec, exp, got, d):
 
 
 def run_case(case, stats: Counter):
+    if case.get("kind") == "mutating":
+        return run_mutating(case, stats)
     if case.get("kind") == "groupby":
         from . import C16
         stats["runs_groupby"] += 1
